@@ -613,3 +613,182 @@ def gen_fromdict_row():
 
 
 GENERATORS = GENERATORS + (('FromdictRow', gen_fromdict_row),)
+
+
+# ---------------------------------------------------------------------------------------------------------------------
+
+class DefTr:
+    """Straight-line `Definition` mutators (calls of `Unique` / `set` methods on `self._objects`, `self._properties`, `self._pairs`,
+    `if`/`else`, one `for` over the current names) -> a Lean function in `Except Err` over the state (objs, props, pairs)."""
+
+    FIELD = {'self._objects': 'objs', 'self._properties': 'props', 'self._pairs': 'pairs'}
+    OTHER = {'other._objects': 'other.objs', 'other._properties': 'other.props', 'other._pairs': 'other.pairs'}
+
+    def __init__(self, names, lists, bools):
+        self.names = dict(names)      # python name -> lean term : Name
+        self.lists = dict(lists)      # python name -> lean term : List Name
+        self.bools = dict(bools)      # python name -> lean term : Bool
+        self.alias = {}               # local alias of a field
+        self.pairvars = {}            # python name -> (o term, p term)
+
+    def field(self, node):
+        try:
+            d = dotted(node)
+        except Decline:
+            d = None
+        if d in self.FIELD:
+            return self.FIELD[d]
+        if d in self.alias:
+            return self.alias[d]
+        raise Decline('not a field of the definition: %s' % ast.unparse(node))
+
+    def name(self, node, loc):
+        if isinstance(node, ast.Name):
+            if node.id in loc:
+                return loc[node.id]
+            if node.id in self.names:
+                return self.names[node.id]
+        raise Decline('unsupported name expression %s' % ast.unparse(node))
+
+    def pair(self, node, loc):
+        if isinstance(node, ast.Name) and node.id in self.pairvars:
+            return '(%s, %s)' % self.pairvars[node.id]
+        if isinstance(node, ast.Tuple) and len(node.elts) == 2:
+            return '(%s, %s)' % (self.name(node.elts[0], loc), self.name(node.elts[1], loc))
+        raise Decline('unsupported pair %s' % ast.unparse(node))
+
+    def namelist(self, node):
+        if isinstance(node, ast.Name) and node.id in self.lists:
+            return self.lists[node.id]
+        try:
+            d = dotted(node)
+        except Decline:
+            d = None
+        if d in self.OTHER:
+            return self.OTHER[d]
+        if d in self.FIELD and self.FIELD[d] != 'pairs':
+            return self.FIELD[d]
+        raise Decline('unsupported list of names %s' % ast.unparse(node))
+
+    def block(self, stmts, ind, loc):
+        if not stmts:
+            return [ind + '.ok (⟨objs, props, pairs⟩ : Defn)']
+        st, rest = stmts[0], stmts[1:]
+        go = lambda line: [ind + line] + self.block(rest, ind, loc)      # noqa: E731
+        if isinstance(st, ast.If):
+            t = ast.unparse(st.test)
+            if t == 'isinstance(pair, int)':          # well-typed arguments only
+                return self.block(rest, ind, loc)
+            if t == 'not ignore_conflicts' and [ast.unparse(s) for s in st.body] == ['ensure_compatible(self, other)'] and not st.orelse:
+                return ([ind + 'if !ignore_conflicts && !(conflicts ⟨objs, props, pairs⟩ other).isEmpty then .error .valueError',
+                         ind + 'else'] + self.block(rest, ind + '  ', loc))
+            if isinstance(st.test, ast.Name) and st.test.id in self.bools:
+                return ([ind + 'if %s then' % self.bools[st.test.id]] + self.block(list(st.body) + rest, ind + '  ', loc)
+                        + [ind + 'else'] + self.block(list(st.orelse) + rest, ind + '  ', loc))
+            raise Decline('unsupported condition %s' % t)
+        if isinstance(st, ast.Assign) and len(st.targets) == 1:
+            tgt, v = st.targets[0], st.value
+            if isinstance(tgt, ast.Tuple) and isinstance(v, ast.Name) and v.id == 'pair' and len(tgt.elts) == 2:
+                a, b = tgt.elts[0].id, tgt.elts[1].id
+                self.pairvars['pair'] = (a, b)
+                self.names[a], self.names[b] = a, b
+                return self.block(rest, ind, loc)
+            if isinstance(tgt, ast.Name):
+                try:
+                    f = self.field(v)
+                    self.alias[tgt.id] = f
+                    return self.block(rest, ind, loc)
+                except Decline:
+                    pass
+                if (isinstance(v, ast.Call) and dotted(v.func) == 'tools.Unique' and len(v.args) == 1
+                        and isinstance(v.args[0], ast.Name) and v.args[0].id == tgt.id and tgt.id in self.lists):
+                    self.lists[tgt.id] = tgt.id
+                    return go('let %s := uniq %s' % (tgt.id, self.lists[tgt.id] if self.lists[tgt.id] != tgt.id else tgt.id))
+            raise Decline('unsupported assignment %s' % ast.unparse(st))
+        if isinstance(st, ast.AugAssign):
+            f = self.field(st.target)
+            if f in ('objs', 'props'):
+                arg = self.namelist(st.value)
+                if isinstance(st.op, ast.BitOr):
+                    return go('let %s := uIor %s %s' % (f, f, arg))
+                if isinstance(st.op, ast.BitAnd):
+                    return go('let %s := uIand %s %s' % (f, f, arg))
+            elif ast.unparse(st.value) == 'other._pairs':
+                if isinstance(st.op, ast.BitOr):
+                    return go('let pairs := other.pairs.foldl pAdd pairs')
+                if isinstance(st.op, ast.BitAnd):
+                    return go('let pairs := pairs.filter other.pairs.contains')
+            raise Decline('unsupported augmented assignment %s' % ast.unparse(st))
+        if isinstance(st, ast.Expr) and isinstance(st.value, ast.Call) and isinstance(st.value.func, ast.Attribute):
+            call = st.value
+            f, meth = self.field(call.func.value), call.func.attr
+            if call.keywords:
+                raise Decline('keyword arguments in %s' % ast.unparse(st))
+            if f in ('objs', 'props'):
+                if meth == 'add' and len(call.args) == 1:
+                    return go('let %s := uAdd %s %s' % (f, f, self.name(call.args[0], loc)))
+                if meth == 'move' and len(call.args) == 2 and isinstance(call.args[1], ast.Name) and call.args[1].id == 'index':
+                    return go('let %s ← uMove %s %s index' % (f, f, self.name(call.args[0], loc)))
+            else:
+                if meth in ('add', 'discard') and len(call.args) == 1:
+                    return go('let pairs := %s pairs %s' % ({'add': 'pAdd', 'discard': 'pDiscard'}[meth], self.pair(call.args[0], loc)))
+                if meth == 'update' and len(call.args) == 1 and isinstance(call.args[0], ast.GeneratorExp):
+                    g = call.args[0]
+                    if len(g.generators) == 1 and not g.generators[0].ifs and isinstance(g.generators[0].target, ast.Name):
+                        v = g.generators[0].target.id
+                        src = self.namelist(g.generators[0].iter)
+                        return go('let pairs := %s.foldl (fun acc %s => pAdd acc %s) pairs' % (src, v, self.pair(g.elt, dict(loc, **{v: v}))))
+            raise Decline('unsupported call %s' % ast.unparse(st))
+        if isinstance(st, ast.For) and not st.orelse and isinstance(st.target, ast.Name):
+            v = st.target.id
+            src = self.namelist(st.iter)
+            if len(st.body) == 1 and isinstance(st.body[0], ast.If) and len(st.body[0].body) == 1 and len(st.body[0].orelse) == 1:
+                c = st.body[0]
+                t = c.test
+                if (isinstance(t, ast.Compare) and len(t.ops) == 1 and isinstance(t.ops[0], ast.In) and isinstance(t.left, ast.Name)
+                        and t.left.id == v and isinstance(t.comparators[0], ast.Name) and t.comparators[0].id in self.lists):
+                    loc2 = dict(loc, **{v: v})
+
+                    def one(s):
+                        if (isinstance(s, ast.Expr) and isinstance(s.value, ast.Call) and isinstance(s.value.func, ast.Attribute)
+                                and self.field(s.value.func.value) == 'pairs' and s.value.func.attr in ('add', 'discard')
+                                and len(s.value.args) == 1):
+                            return '%s acc %s' % ({'add': 'pAdd', 'discard': 'pDiscard'}[s.value.func.attr], self.pair(s.value.args[0], loc2))
+                        raise Decline('unsupported loop statement %s' % ast.unparse(s))
+                    return go('let pairs := %s.foldl (fun acc %s => if %s.contains %s then %s else %s) pairs'
+                              % (src, v, self.lists[t.comparators[0].id], v, one(c.body[0]), one(c.orelse[0])))
+            raise Decline('unsupported loop %s' % ast.unparse(st)[:60])
+        raise Decline('unsupported statement %s' % ast.unparse(st)[:60])
+
+
+def gen_defn():
+    tree = _src('definitions.py')
+    spec = [
+        ('__setitem__', ['self', 'pair', 'value'], '(o p : Name) (value : Bool)', dict(names={}, lists={}, bools={'value': 'value'})),
+        ('move_object', ['self', 'obj', 'index'], '(obj : Name) (index : Int)', dict(names={'obj': 'obj'}, lists={}, bools={})),
+        ('move_property', ['self', 'prop', 'index'], '(prop : Name) (index : Int)', dict(names={'prop': 'prop'}, lists={}, bools={})),
+        ('add_object', ['self', 'obj', 'properties'], '(obj : Name) (properties : List Name)', dict(names={'obj': 'obj'}, lists={'properties': 'properties'}, bools={})),
+        ('add_property', ['self', 'prop', 'objects'], '(prop : Name) (objects : List Name)', dict(names={'prop': 'prop'}, lists={'objects': 'objects'}, bools={})),
+        ('set_object', ['self', 'obj', 'properties'], '(obj : Name) (properties : List Name)', dict(names={'obj': 'obj'}, lists={'properties': 'properties'}, bools={})),
+        ('set_property', ['self', 'prop', 'objects'], '(prop : Name) (objects : List Name)', dict(names={'prop': 'prop'}, lists={'objects': 'objects'}, bools={})),
+        ('union_update', ['self', 'other', 'ignore_conflicts'], '(other : Defn) (ignore_conflicts : Bool)', dict(names={}, lists={}, bools={})),
+        ('intersection_update', ['self', 'other', 'ignore_conflicts'], '(other : Defn) (ignore_conflicts : Bool)', dict(names={}, lists={}, bools={})),
+    ]
+    out = ['import FCA.Model.Defn',
+           '/- GENERATED by harness/extract2.py from MutableMixin in concepts/definitions.py — do not edit.',
+           '   Straight-line mutators, statement by statement, over the state (objs, props, pairs); `Unique` / `set` methods are the',
+           '   primitives of Model/Defn.lean (uAdd, uIor, uIand, uMove, uniq, pAdd, pDiscard), `ensure_compatible` is `conflicts`. -/',
+           'namespace FCA.Generated', '']
+    for name, args, params, kw in spec:
+        m = _method(tree, 'MutableMixin', name)
+        if [a.arg for a in m.args.args] != args:
+            raise Decline('%s: signature changed' % name)
+        tr = DefTr(**kw)
+        lines = tr.block(_nodoc(m.body), '  ', {})
+        lean_name = 'defn_' + name.strip('_')
+        out += ['/-- `Definition.%s` -/' % name,
+                'def %s (objs props : List Name) (pairs : List (Name × Name)) %s : Except Err Defn := do' % (lean_name, params)] + lines + ['']
+    return '\n'.join(out + ['end FCA.Generated', ''])
+
+
+GENERATORS = GENERATORS + (('Defn', gen_defn),)
